@@ -15,7 +15,9 @@ package parser
 // The unsafe verdict sticks: no iteration of the tokenizer's main loop clears it.
 //@ func Parse [C34 C20 C19]
 //@   check index, slice
-//@   check-only block
+//@   check-only block, hlBlock
+// (the colour table is a package variable initialised with four entries and never assigned again)
+//@   requires len(hlBlock) == 4
 //@   loop 1 invariant 0 <= iǂ1
 //@   at call Parse$1#* modifies syntaxHighlighted, reset
 //@   at call Parse$2#* modifies syntaxHighlighted, reset
